@@ -63,7 +63,7 @@ pub(super) fn finalize_lambda(
         parent.next_call_site_slot = lambda_compiler.next_call_site_slot;
     }
 
-    let const_idx = parent.current.add_constant_function(compiled_func);
+    let const_idx = parent.add_function_constant(compiled_func, upvalue_count > 0, span)?;
     if const_idx > u8::MAX as u16 {
         return Err(CompileError::new(
             CompileErrorKind::TooManyConstants,
